@@ -1,40 +1,37 @@
-"""Static description of harness binaries (KEYS) and checks (CHECKS)."""
+"""Static description of harness binaries (KEYS) and checks (CHECKS).
 
-KEYS = {
-    'arvados': {'pkg': 'sdk/go/arvados'},
-}
+Every driver/spec_*.py file is imported and may add entries:
 
+    from specs import KEYS, CHECKS, unit
+    KEYS['mykey'] = {'pkg': 'services/keepstore'}          # harness/mykey/*_test.go are overlaid into that package
+    CHECKS['C01'] = {..., 'ready': True, 'units': [unit(...)]}
+"""
+import glob, importlib.util, os, sys
+
+KEYS = {}
 CHECKS = {}
-
-
-def unit(name, key, run, quick, thorough, **kw):
-    u = {'name': name, 'key': key, 'run': run, 'quick': quick, 'thorough': thorough}
-    u.update(kw)
-    return u
-
-CHECKS['C07'] = {
-    'level': 'exploration',
-    'rule': 'rapid-generated (hash, hints, token, key, ttl, expiry) tuples; each case signs with the real code, '
-            'compares with the blob.rb reference HMAC and applies ~35 single-field/single-character perturbations; '
-            'every case is non-trivial (it contains perturbations); distinct = distinct tuple fingerprint',
-    'assumptions': ['blob.rb algorithm transcribed (Ruby not installed)', 'expiry within ±5 s of now is not generated (wall clock not injectable)'],
-    'units': [
-        unit('sign', 'arvados', '^TestVerifC07', {'shards': 8, 'checks': 1500}, {'shards': 16, 'checks': 60000, 'timeout': 1500}),
-    ],
-}
-
 NOT_APPLICABLE = {}
 HOOK_COMMITS = []
 
-KEYS['manifest'] = {'pkg': 'sdk/go/manifest'}
 
-CHECKS['C10'] = {
-    'level': 'exploration',
-    'rule': 'grammar-directed manifests (1-4 streams, 1-5 blocks of 0-20 bytes incl. zero-length, file tokens at block-boundary '
-            'alignments, escaped/backslash/non-ASCII names); non-trivial = a file token crosses a block boundary, or a zero-length '
-            'block, or an escaped name; distinct = fingerprint of (manifest text, src, relocate)',
-    'assumptions': ['reference interpreter written from doc/architecture/manifest-format'],
-    'units': [
-        unit('gomanifest', 'manifest', '^TestVerifC10', {'shards': 8, 'checks': 1500}, {'shards': 16, 'checks': 60000, 'timeout': 1500}),
-    ],
-}
+def unit(name, key, run, quick, thorough, **kw):
+    u = {'name': name, 'key': key, 'run': run}
+    if quick is not None:
+        u['quick'] = quick
+    if thorough is not None:
+        u['thorough'] = thorough
+    u.update(kw)
+    return u
+
+
+def _load():
+    here = os.path.dirname(os.path.abspath(__file__))
+    sys.modules.setdefault('specs', sys.modules[__name__])
+    for path in sorted(glob.glob(os.path.join(here, 'spec_*.py'))):
+        name = os.path.basename(path)[:-3]
+        sp = importlib.util.spec_from_file_location(name, path)
+        mod = importlib.util.module_from_spec(sp)
+        sp.loader.exec_module(mod)
+
+
+_load()
